@@ -23,6 +23,10 @@ pub struct CrossCase {
   pub msg: String,
   pub footer: Option<String>,
   pub assertion: Option<String>,
+  /// how many times X's own entry points (all three layers) accept the token before it is shown to Y
+  /// (anything remembered about an accepted token must not leak across protocols)
+  #[serde(default)]
+  pub warmups: u8,
 }
 
 /// Key universe from one seed: the Ed25519 public key doubles as the symmetric key of every local protocol,
@@ -61,6 +65,17 @@ impl Sub for Cross {
       Ok(t) => t,
       Err(_) => return Verdict::Discard,
     };
+    for _ in 0..c.warmups.min(4) {
+      for layer in Layer::ALL {
+        let _ = layer_parse(x, layer, &lx, &t, c.footer.as_deref(), ax);
+      }
+    }
+    if c.warmups > 0 {
+      cl.tag(format!("warmups={}", c.warmups.min(4)));
+    }
+    if c.msg.len() >= 65536 {
+      cl.tag("message>=64KiB");
+    }
     let (_, pseg, fseg) = split_token(&t).expect("well-formed");
     let payload = unb64(&pseg).expect("payload");
     let presented = match c.presentation % 4 {
@@ -200,11 +215,12 @@ fn case(x: Proto, y: Proto) -> BoxedStrategy<CrossCase> {
     0u8..4,
     gen::bytes32(),
     vec(any::<u8>(), 32),
-    gen::jsonish(40),
+    prop_oneof![12 => gen::jsonish(40), 1 => Just(format!("{{\"data\":\"{}\"}}", "x".repeat(70_000)))],
     prop_oneof![Just(None), gen::jsonish(12).prop_map(Some)],
     prop_oneof![Just(None), gen::jsonish(12).prop_map(Some)],
+    prop_oneof![2 => Just(0u8), 1 => 1u8..=3],
   )
-    .prop_map(move |(l, presentation, seed, nonce, msg, footer, assertion)| CrossCase { x, y, layer: Layer::ALL[pick(l, 3)], presentation, seed, nonce, msg, footer, assertion })
+    .prop_map(move |(l, presentation, seed, nonce, msg, footer, assertion, warmups)| CrossCase { x, y, layer: Layer::ALL[pick(l, 3)], presentation, seed, nonce, msg, footer, assertion, warmups })
     .boxed()
 }
 
@@ -247,6 +263,7 @@ pub fn run(ctx: &Ctx) -> EvidenceMeta {
               msg: "{\"data\":\"cross\"}".into(),
               footer,
               assertion: if i == 1 { Some("ctx".into()) } else { None },
+              warmups: (presentation + i as u8) % 4,
             });
           }
         }
